@@ -168,6 +168,11 @@ func LaunchDigest(options *LaunchOptions, serializedUefi []byte) ([]byte, error)
 	if options.Vcpus < 1 {
 		return nil, fmt.Errorf("vcpus at launch is %d. Want at least 1", options.Vcpus)
 	}
+	// Without a known guest-physical address width there is no ProductHighAddress to measure the
+	// VMSAs at: a missing bitWidth entry reads as 0 and the range arithmetic would wrap.
+	if _, ok := bitWidth[options.Product]; !ok {
+		return nil, fmt.Errorf("unsupported SEV product %v", options.Product)
+	}
 
 	data := &ovmf.SevData{SevEs: true, SevSnp: true}
 	if err := data.ExtractFromFirmware(serializedUefi); err != nil {
